@@ -68,6 +68,17 @@ def clampReply (p : Pair) (iv : Interval) : String :=
   | .err e => pairErrStr e
   | .panic _ => "panic"
 
+/-- clamp, then lift coordinates through the clamped pair -/
+def clampLiftReply (p : Pair) (iv : Interval) (cs : List String) : String :=
+  match p.clamp iv with
+  | .ok p' =>
+    match cs.mapM coordOf with
+    | none => "badreq"
+    | some cs => join " ; " (s!"ok {pairStr p'}" :: cs.map (fun c =>
+        match p'.lift c with | none => "none" | some c' => s!"some {coordStr c'}"))
+  | .err e => pairErrStr e
+  | .panic _ => "panic"
+
 def lapperReply (args : List String) : String :=
   match args with
   | s :: e :: ivs =>
@@ -198,6 +209,7 @@ def handle (line : String) : String :=
       | none => "badreq"
       | some c => match p.lift c with | none => "none" | some c' => s!"some {coordStr c'}"
   | ["pair_clamp", r, q, iv] => withPair r q fun p => withIv iv fun iv => clampReply p iv
+  | ["pair_clamp_lift", r, q, iv, cs] => withPair r q fun p => withIv iv fun iv => clampLiftReply p iv (cs.splitOn ",")
   | "lapper" :: args => lapperReply args
   | ["raw", src] => match srcOf src with | some s => rawReply s | none => "badreq"
   | ["lines", src] => match srcOf src with | some s => linesReply s | none => "badreq"
